@@ -337,8 +337,28 @@ type c16CollideThree struct {
 	D bool    `json:"d"`
 }
 
+type c16CollideBase struct {
+	ID   int    `json:"id"`
+	Name string `json:"name"`
+	Note string `json:"note"`
+}
+type c16CollideOuter struct {
+	c16CollideBaseAlias
+	Key   string `json:"id"`
+	Label string `json:"name"`
+}
+type c16CollideBaseAlias = C16CollideBase
+type C16CollideBase c16CollideBase
+type c16CollideFlat struct {
+	X  int `json:"x"`
+	Y  int `json:"y"`
+	X2 int `json:"x"`
+	Y2 int `json:"y"`
+	Z  int `json:"z"`
+}
+
 func (c16) collisions(c *fw.Case) {
-	t := gen.Pick(c.R, []reflect.Type{reflect.TypeFor[c16Collide](), reflect.TypeFor[[]c16Collide](), reflect.TypeFor[c16CollideThree](), reflect.TypeFor[map[string]*c16CollideThree](), reflect.TypeFor[struct {
+	t := gen.Pick(c.R, []reflect.Type{reflect.TypeFor[c16CollideOuter](), reflect.TypeFor[c16CollideFlat](), reflect.TypeFor[[]c16CollideOuter](), reflect.TypeFor[c16Collide](), reflect.TypeFor[[]c16Collide](), reflect.TypeFor[c16CollideThree](), reflect.TypeFor[map[string]*c16CollideThree](), reflect.TypeFor[struct {
 		In c16Collide `json:"in"`
 	}]()})
 	var prev []byte
